@@ -6,31 +6,31 @@ namespace Abra.Compile
 open Abra.Sem Abra.VM
 
 mutual
-theorem compE_mono : ∀ (e : Expr) (Γ : TEnv) (next : Nat) (c : Code) (τ : Ty) (n' : Nat),
-    compE Γ next e = some (c, τ, n') → next ≤ n'
-  | .int _, _, _, _, _, _, h => by simp only [compE, Option.some.injEq, Prod.mk.injEq] at h; omega
-  | .bool _, _, _, _, _, _, h => by simp only [compE, Option.some.injEq, Prod.mk.injEq] at h; omega
-  | .unit, _, _, _, _, _, h => by simp only [compE, Option.some.injEq, Prod.mk.injEq] at h; omega
-  | .var x, Γ, next, c, τ, n', h => by
+theorem compE_mono : ∀ (e : Expr) (Γ : TEnv) (next : Nat) (d : Nat) (c : Code) (τ : Ty) (n' : Nat),
+    compE Γ next d e = some (c, τ, n') → next ≤ n'
+  | .int _, _, _, _, _, _, _, h => by simp only [compE, Option.some.injEq, Prod.mk.injEq] at h; omega
+  | .bool _, _, _, _, _, _, _, h => by simp only [compE, Option.some.injEq, Prod.mk.injEq] at h; omega
+  | .unit, _, _, _, _, _, _, h => by simp only [compE, Option.some.injEq, Prod.mk.injEq] at h; omega
+  | .var x, Γ, next, _, c, τ, n', h => by
     simp only [compE] at h
     split at h <;> simp only [Option.some.injEq, Prod.mk.injEq, reduceCtorEq] at h <;> omega
-  | .un .neg a, Γ, next, c, τ, n', h => by
+  | .un .neg a, Γ, next, _, c, τ, n', h => by
     simp only [compE] at h
     split at h
     · rename_i ca n1 heq
       simp only [Option.some.injEq, Prod.mk.injEq] at h
-      have := compE_mono a _ _ _ _ _ heq
+      have := compE_mono a _ _ _ _ _ _ heq
       omega
     · simp at h
-  | .un .not a, Γ, next, c, τ, n', h => by
+  | .un .not a, Γ, next, _, c, τ, n', h => by
     simp only [compE] at h
     split at h
     · rename_i ca n1 heq
       simp only [Option.some.injEq, Prod.mk.injEq] at h
-      have := compE_mono a _ _ _ _ _ heq
+      have := compE_mono a _ _ _ _ _ _ heq
       omega
     · simp at h
-  | .bin op a b, Γ, next, c, τ, n', h => by
+  | .bin op a b, Γ, next, _, c, τ, n', h => by
     cases op <;> simp only [compE] at h <;>
     · split at h
       all_goals first
@@ -40,14 +40,14 @@ theorem compE_mono : ∀ (e : Expr) (Γ : TEnv) (next : Nat) (c : Code) (τ : Ty
            all_goals first
              | (simp at h; done)
              | (rename_i heq2
-                have h1 := compE_mono a _ _ _ _ _ heq1
-                have h2 := compE_mono b _ _ _ _ _ heq2
+                have h1 := compE_mono a _ _ _ _ _ _ heq1
+                have h2 := compE_mono b _ _ _ _ _ _ heq2
                 first
                   | (simp only [Option.some.injEq, Prod.mk.injEq] at h; omega)
                   | (split at h
                      · simp only [Option.some.injEq, Prod.mk.injEq] at h; omega
                      · simp at h)))
-  | .ite cnd t f, Γ, next, c, τ, n', h => by
+  | .ite cnd t f, Γ, next, _, c, τ, n', h => by
     simp only [compE] at h
     split at h
     · rename_i heq1
@@ -57,113 +57,115 @@ theorem compE_mono : ∀ (e : Expr) (Γ : TEnv) (next : Nat) (c : Code) (τ : Ty
         split at h
         · simp at h
         · rename_i heq3
-          have h1 := compE_mono cnd _ _ _ _ _ heq1
-          have h2 := compE_mono t _ _ _ _ _ heq2
-          have h3 := compE_mono f _ _ _ _ _ heq3
+          have h1 := compE_mono cnd _ _ _ _ _ _ heq1
+          have h2 := compE_mono t _ _ _ _ _ _ heq2
+          have h3 := compE_mono f _ _ _ _ _ _ heq3
           split at h
           · simp only [Option.some.injEq, Prod.mk.injEq] at h; omega
           · simp at h
     · simp at h
-  | .block ss, Γ, next, c, τ, n', h => by
+  | .block ss, Γ, next, _, c, τ, n', h => by
     simp only [compE] at h
-    exact compSs_mono ss _ _ _ _ _ _ h
-  | .print a, Γ, next, c, τ, n', h => by
+    exact compSs_mono ss _ _ _ _ _ _ _ h
+  | .print a, Γ, next, _, c, τ, n', h => by
     simp only [compE] at h
     split at h
     · rename_i heq; simp only [Option.some.injEq, Prod.mk.injEq] at h
-      have := compE_mono a _ _ _ _ _ heq; omega
+      have := compE_mono a _ _ _ _ _ _ heq; omega
     · rename_i heq; simp only [Option.some.injEq, Prod.mk.injEq] at h
-      have := compE_mono a _ _ _ _ _ heq; omega
+      have := compE_mono a _ _ _ _ _ _ heq; omega
     · simp at h
-  | .str _, _, _, _, _, _, h => by simp [compE] at h
-  | .tuple _, _, _, _, _, _, h => by simp [compE] at h
-  | .mkStruct _ _, _, _, _, _, _, h => by simp [compE] at h
-  | .field _ _, _, _, _, _, _, h => by simp [compE] at h
-  | .mkVariant _ _, _, _, _, _, _, h => by simp [compE] at h
-  | .matchE _ _, _, _, _, _, _, h => by simp [compE] at h
-  | .array _, _, _, _, _, _, h => by simp [compE] at h
-  | .index _ _, _, _, _, _, _, h => by simp [compE] at h
-  | .len _, _, _, _, _, _, h => by simp [compE] at h
-  | .push _ _, _, _, _, _, _, h => by simp [compE] at h
-  | .pop _, _, _, _, _, _, h => by simp [compE] at h
-  | .call _ _, _, _, _, _, _, h => by simp [compE] at h
-  | .callv _ _, _, _, _, _, _, h => by simp [compE] at h
-  | .lam _ _, _, _, _, _, _, h => by simp [compE] at h
-  | .try_ _, _, _, _, _, _, h => by simp [compE] at h
-  | .unwrap _, _, _, _, _, _, h => by simp [compE] at h
-  | .panic _, _, _, _, _, _, h => by simp [compE] at h
+  | .str _, _, _, _, _, _, _, h => by simp [compE] at h
+  | .tuple _, _, _, _, _, _, _, h => by simp [compE] at h
+  | .mkStruct _ _, _, _, _, _, _, _, h => by simp [compE] at h
+  | .field _ _, _, _, _, _, _, _, h => by simp [compE] at h
+  | .mkVariant _ _, _, _, _, _, _, _, h => by simp [compE] at h
+  | .matchE _ _, _, _, _, _, _, _, h => by simp [compE] at h
+  | .array _, _, _, _, _, _, _, h => by simp [compE] at h
+  | .index _ _, _, _, _, _, _, _, h => by simp [compE] at h
+  | .len _, _, _, _, _, _, _, h => by simp [compE] at h
+  | .push _ _, _, _, _, _, _, _, h => by simp [compE] at h
+  | .pop _, _, _, _, _, _, _, h => by simp [compE] at h
+  | .call _ _, _, _, _, _, _, _, h => by simp [compE] at h
+  | .callv _ _, _, _, _, _, _, _, h => by simp [compE] at h
+  | .lam _ _, _, _, _, _, _, _, h => by simp [compE] at h
+  | .fnref _, _, _, _, _, _, _, h => by simp [compE] at h
+  | .mkref _, _, _, _, _, _, _, h => by simp [compE] at h
+  | .try_ _, _, _, _, _, _, _, h => by simp [compE] at h
+  | .unwrap _, _, _, _, _, _, _, h => by simp [compE] at h
+  | .panic _, _, _, _, _, _, _, h => by simp [compE] at h
 
-theorem compS_mono : ∀ (s : Stmt) (Γ : TEnv) (next : Nat) (il : Bool) (c : Code) (τ : Ty) (Γ' : TEnv) (n' : Nat),
-    compS Γ next il s = some (c, τ, Γ', n') → next ≤ n'
-  | .let_ p e, Γ, next, il, c, τ, Γ', n', h => by
+theorem compS_mono : ∀ (s : Stmt) (Γ : TEnv) (next : Nat) (d : Nat) (il : Bool) (c : Code) (τ : Ty) (Γ' : TEnv) (n' : Nat),
+    compS Γ next d il s = some (c, τ, Γ', n') → next ≤ n'
+  | .let_ p e, Γ, next, _, il, c, τ, Γ', n', h => by
     cases p <;> simp only [compS] at h <;> try (simp at h; done)
     split at h
     · simp at h
     · rename_i heq
       simp only [Option.some.injEq, Prod.mk.injEq] at h
-      have := compE_mono e _ _ _ _ _ heq
+      have := compE_mono e _ _ _ _ _ _ heq
       omega
     · simp at h
-  | .assign x op e, Γ, next, il, c, τ, Γ', n', h => by
+  | .assign x op e, Γ, next, _, il, c, τ, Γ', n', h => by
     cases op <;> simp only [compS] at h <;>
     · split at h
       · rename_i heq1 heq2
-        have := compE_mono e _ _ _ _ _ heq2
+        have := compE_mono e _ _ _ _ _ _ heq2
         first
           | (split at h
              · simp only [Option.some.injEq, Prod.mk.injEq] at h; omega
              · simp at h)
           | (simp only [Option.some.injEq, Prod.mk.injEq] at h; omega)
       · simp at h
-  | .expr e, Γ, next, il, c, τ, Γ', n', h => by
+  | .expr e, Γ, next, _, il, c, τ, Γ', n', h => by
     simp only [compS] at h
     split at h
     · rename_i heq
       simp only [Option.some.injEq, Prod.mk.injEq] at h
-      have := compE_mono e _ _ _ _ _ heq
+      have := compE_mono e _ _ _ _ _ _ heq
       omega
     · simp at h
-  | .while_ cnd body, Γ, next, il, c, τ, Γ', n', h => by
+  | .while_ cnd body, Γ, next, _, il, c, τ, Γ', n', h => by
     simp only [compS] at h
     split at h
     · rename_i heq1
       split at h
       · rename_i heq2
         simp only [Option.some.injEq, Prod.mk.injEq] at h
-        have h1 := compE_mono cnd _ _ _ _ _ heq1
-        have h2 := compSs_mono body _ _ _ _ _ _ heq2
+        have h1 := compE_mono cnd _ _ _ _ _ _ heq1
+        have h2 := compSs_mono body _ _ _ _ _ _ _ heq2
         omega
       · simp at h
     · simp at h
-  | .break_, Γ, next, il, c, τ, Γ', n', h => by
+  | .break_, Γ, next, _, il, c, τ, Γ', n', h => by
     simp only [compS, Option.some.injEq, Prod.mk.injEq] at h; omega
-  | .continue_, Γ, next, il, c, τ, Γ', n', h => by
+  | .continue_, Γ, next, _, il, c, τ, Γ', n', h => by
     simp only [compS, Option.some.injEq, Prod.mk.injEq] at h; omega
-  | .assignField _ _ _ _, _, _, _, _, _, _, _, h => by simp [compS] at h
-  | .assignIndex _ _ _ _, _, _, _, _, _, _, _, h => by simp [compS] at h
-  | .for_ _ _ _, _, _, _, _, _, _, _, h => by simp [compS] at h
-  | .ret _, _, _, _, _, _, _, _, h => by simp [compS] at h
+  | .assignField _ _ _ _, _, _, _, _, _, _, _, _, h => by simp [compS] at h
+  | .assignIndex _ _ _ _, _, _, _, _, _, _, _, _, h => by simp [compS] at h
+  | .for_ _ _ _, _, _, _, _, _, _, _, _, h => by simp [compS] at h
+  | .ret _, _, _, _, _, _, _, _, _, h => by simp [compS] at h
 
-theorem compSs_mono : ∀ (ss : Stmts) (Γ : TEnv) (next : Nat) (blk : Bool) (c : Code) (τ : Ty) (n' : Nat),
-    compSs Γ next blk ss = some (c, τ, n') → next ≤ n'
-  | .nil, _, _, _, _, _, _, h => by simp only [compSs, Option.some.injEq, Prod.mk.injEq] at h; omega
-  | .cons s .nil, Γ, next, blk, c, τ, n', h => by
+theorem compSs_mono : ∀ (ss : Stmts) (Γ : TEnv) (next : Nat) (d : Nat) (blk : Bool) (c : Code) (τ : Ty) (n' : Nat),
+    compSs Γ next d blk ss = some (c, τ, n') → next ≤ n'
+  | .nil, _, _, _, _, _, _, _, h => by simp only [compSs, Option.some.injEq, Prod.mk.injEq] at h; omega
+  | .cons s .nil, Γ, next, _, blk, c, τ, n', h => by
     simp only [compSs] at h
     split at h
     · rename_i heq
       simp only [Option.some.injEq, Prod.mk.injEq] at h
-      have := compS_mono s _ _ _ _ _ _ _ heq
+      have := compS_mono s _ _ _ _ _ _ _ _ heq
       omega
     · simp at h
-  | .cons s (.cons s2 r), Γ, next, blk, c, τ, n', h => by
+  | .cons s (.cons s2 r), Γ, next, _, blk, c, τ, n', h => by
     simp only [compSs] at h
     split at h
     · rename_i heq
       split at h
       · rename_i heq2
         simp only [Option.some.injEq, Prod.mk.injEq] at h
-        have h1 := compS_mono s _ _ _ _ _ _ _ heq
-        have h2 := compSs_mono (.cons s2 r) _ _ _ _ _ _ heq2
+        have h1 := compS_mono s _ _ _ _ _ _ _ _ heq
+        have h2 := compSs_mono (.cons s2 r) _ _ _ _ _ _ _ heq2
         omega
       · simp at h
     · simp at h
